@@ -6,7 +6,7 @@ import (
 )
 
 var zzHarnesses = map[string]func(){"H17SplitJoin": H17SplitJoin, "H17Index": H17Index, "H17Slice": H17Slice,
-	"H17Map": H17Map, "H17Filter": H17Filter, "H17Reduce": H17Reduce, "H17Range": H17Range, "H17For": H17For, "H17Concat": H17Concat}
+	"H17Map": H17Map, "H17Filter": H17Filter, "H17Reduce": H17Reduce, "H17Range": H17Range, "H17For": H17For, "H17Concat": H17Concat, "H17Nested": H17Nested}
 
 const zzSep = "\x00"
 
@@ -403,6 +403,62 @@ func H17Concat() {
 		st, err := StandardFunctions[name](args)
 		zz.Assert(err == nil, "join rejected its arguments")
 		zz.Assert(st(&zzCtx{vals: l}) == zzJoin(l, zzSep), "{$ ..}/{@ ..} is not the NUL-joined argument list")
+	}
+	zz.Reached()
+}
+
+// H17Nested: an array helper whose sub-expression itself runs an array
+// helper (both take their sub-context from the same pool): the outer
+// element binding is intact after the inner helper ran, for every element.
+func H17Nested() {
+	l := zzList(3, zzMaxElem)
+	zz.Assume(len(l) > 0)
+	arr := zzJoin(l, zzSep)
+	key := zzElem(1)
+	innerList := zzLit("p" + zzSep + "q")
+	var inner KeyBuilderStage
+	switch zz.Choice(4) {
+	case 0:
+		inner = zzMust(kfArrayMap([]KeyBuilderStage{innerList, zzArg(0)}))
+	case 1:
+		inner = zzMust(kfArrayReduce([]KeyBuilderStage{innerList, zzArg(1), zzLit("i")}))
+	case 2:
+		inner = zzMust(kfArrayFilter([]KeyBuilderStage{innerList, zzLit("1")}))
+	default:
+		inner = zzMust(kfArrayMap([]KeyBuilderStage{zzArg(0), zzLit("w")})) // maps the outer element itself
+	}
+	var before, after, keys []string
+	sub := func(c KeyBuilderContext) string {
+		before = append(before, c.GetMatch(0))
+		r := inner(c)
+		zz.Assert(c.GetMatch(0) == l[len(after)], "nested array helper: the inner helper clobbered the outer element binding")
+		after = append(after, c.GetMatch(0))
+		keys = append(keys, c.GetKey("k"))
+		return r
+	}
+	var st KeyBuilderStage
+	outer := zz.Choice(3)
+	switch outer {
+	case 0:
+		st = zzMust(kfArrayMap([]KeyBuilderStage{zzArg(0), sub}))
+	case 1:
+		st = zzMust(kfArrayFilter([]KeyBuilderStage{zzArg(0), sub}))
+	default:
+		st = zzMust(kfArrayReduce([]KeyBuilderStage{zzArg(0), func(c KeyBuilderContext) string {
+			before = append(before, c.GetMatch(1))
+			inner(c)
+			zz.Assert(c.GetMatch(1) == l[len(after)], "nested array helper: the inner helper clobbered the outer element binding")
+			after = append(after, c.GetMatch(1))
+			keys = append(keys, c.GetKey("k"))
+			return "m"
+		}, zzLit("i")}))
+	}
+	st(&zzCtx{vals: []string{arr}, key: key})
+	zz.Assert(len(before) == len(l) && len(after) == len(l), "nested array helper: sub-expression not evaluated once per element")
+	for i := range l {
+		zz.Assert(before[i] == l[i], "nested array helper: element binding wrong before the inner helper")
+		zz.Assert(after[i] == l[i], "nested array helper: the inner helper clobbered the outer element binding")
+		zz.Assert(keys[i] == key, "nested array helper: named key no longer resolves in the enclosing match")
 	}
 	zz.Reached()
 }
